@@ -429,7 +429,7 @@ def forward(ctx):
             msg='mk_component does not formalize the associations it defined')
     gs = repo.func('bridgepoint.gen_sql_schema:main')
     from .common import resolve_locals
-    ok = any(pm.match('loader.build_component(opts.component, opts.derived)', resolve_locals(gs, env_['_C'], pure_only=False)) is not None
+    ok = any(pm.match('_L.build_component(opts.component, opts.derived)', resolve_locals(gs, env_['_C'], pure_only=False)) is not None
              for _n, env_ in pm.find('xtuml.persist_database(_C, opts.output)', gs))
     r.check(ok, 'gen_sql_schema passes -c / -d to build_component and writes the component', gs, construct='bridgepoint.gen_sql_schema:main', key='cli',
             msg='gen_sql_schema.main does not call build_component(opts.component, opts.derived) and persist the result to opts.output')
